@@ -87,8 +87,11 @@ impl fmt::Display for Expression {
     fn fmt(&self, f: &mut fmt::Formatter<'_>) -> fmt::Result {
         let mut syms = default_symbol_table();
         let expr = self.convert(&mut syms);
-        let s = expr.print(&syms).unwrap();
-        write!(f, "{}", s)
+        // operations coming from a token can be malformed (too few or too many operands)
+        match expr.print(&syms) {
+            Some(s) => write!(f, "{}", s),
+            None => write!(f, "<invalid expression: {:?}>", expr.ops),
+        }
     }
 }
 
